@@ -100,7 +100,7 @@ def run(ctx):
             for o in ({}, {"mesh_overflow_warning": 1.0}, {"mesh_overflow_warning": 2})]
     st = explore(rich, ["ans"], 0, sink, stats=st, name="det/success-rich")
     st = explore(adv, ["ans"], 1 if q else 2, sink, stats=st, name="det/ans-b", pos_ok=(lambda k, p, r: p < 12) if q else (lambda k, p, r: p < 20),
-                 cap=None if q else st["executions"] + 40000)
+                 cap=None if q else st["executions"] + 15000)
     # (e) noise scripts
     nz = [job(D, "lin", m, None, seeds[0]) for D in Ds[:2] for m in ("decl", "spec")]
     st = explore(nz, ["noise"], 1, sink, stats=st, name="noisy/noise-b1", pos_ok=lambda k, p, r: p % (8 if q else 2) == 0)
